@@ -943,7 +943,7 @@ func (in *instr) selectStmt(c *astutil.Cursor, n *ast.SelectStmt) {
 				pre = append(pre, &ast.AssignStmt{Lhs: []ast.Expr{v}, Tok: token.DEFINE, Rhs: []ast.Expr{s.Value}})
 				val = v
 			}
-			cases = append(cases, in.call("SendCase", ch))
+			cases = append(cases, in.call("SendCase", ch, val))
 			first = &ast.ExprStmt{X: in.call("SelSend", ch, val)}
 		case *ast.ExprStmt:
 			u := stripValue(s.X).(*ast.UnaryExpr)
@@ -964,6 +964,9 @@ func (in *instr) selectStmt(c *astutil.Cursor, n *ast.SelectStmt) {
 		clauses = append(clauses, &ast.CaseClause{List: []ast.Expr{intLit(idx)}, Body: body})
 		idx++
 	}
+	// A select whose clauses all terminate is a terminating statement; keep the
+	// switch one too by giving it a (never taken) default clause that panics.
+	clauses = append(clauses, &ast.CaseClause{Body: []ast.Stmt{&ast.ExprStmt{X: &ast.CallExpr{Fun: ast.NewIdent("panic"), Args: []ast.Expr{strLit("simrt: select chose no clause")}}}}})
 	hd := ast.NewIdent("false")
 	if hasDefault {
 		hd = ast.NewIdent("true")
@@ -1064,6 +1067,13 @@ func (in *instr) writeReset(dir string) {
 							if n, ok := obj.Type().(*types.Named); ok && n.Obj().Pkg().Path() == "sync" {
 								switch n.Obj().Name() {
 								case "Mutex", "RWMutex", "WaitGroup", "Once":
+									stmts = append(stmts, fmt.Sprintf("%s = simrt.%s{}", name.Name, n.Obj().Name()))
+									needSimrt = true
+								}
+							}
+							if n, ok := obj.Type().(*types.Named); ok && n.Obj().Pkg().Path() == "sync/atomic" {
+								switch n.Obj().Name() {
+								case "Int32", "Int64", "Uint32", "Uint64", "Bool", "Value":
 									stmts = append(stmts, fmt.Sprintf("%s = simrt.%s{}", name.Name, n.Obj().Name()))
 									needSimrt = true
 								}
